@@ -115,6 +115,7 @@ fn main() {
         "c16h3" => c16h3::run(&mut ctx),
         "c17h3" => c17::live_h3(&mut ctx),
         "c09origin" => c17::run_malicious(&mut ctx),
+        "c17restart" => c17::run_restarts(&mut ctx),
         "c18h3" => c18::run_h3(&mut ctx),
         "c19live" => c19::run_live(&mut ctx),
         "c04live" => c04::run_live(&mut ctx),
